@@ -41,7 +41,7 @@ def gen_case(rng, tier):
         gene = {"kind": "shipped", "name": rng.choice(cfg["shipped"]), "genome": "hg19"}
     return {"gene": gene, "seed": rng.randint(0, 10**9), "gap": rng.choice([0, 0, 0.1, 0.3]),
             "max_cn": rng.choice([3, 4, 4, 5, 6]), "noise": rng.choice([0.0, 0.1, 0.3, 0.5]),
-            "fusion_support": rng.random() < 0.2}
+            "fusion_support": rng.random() < 0.3}
 
 
 def gen_plan(rng, tier, i, seed):
@@ -86,7 +86,7 @@ def shrink(plan):
 def new_stats():
     return {"plans": 0, "cases": 0, "runs": 0, "solutions": 0, "brute_structs": 0, "fired": {}, "ge2": 0,
             "shapes": set(), "genes": {}, "with_deletion": 0, "with_fusion": 0, "with_extra": 0, "faults": 0,
-            "truncated": 0, "config_checks": 0, "fusion_support_cases": 0}
+            "truncated": 0, "config_checks": 0, "fusion_support_cases": 0, "via_counters": 0, "via_counters_all_zero": 0}
 
 
 def count_evaluations(plan, out):
@@ -98,7 +98,8 @@ def update_stats(acc, plan, out):
     for r in out["segments"]:
         st = r["stats"]
         for k in ("cases", "runs", "solutions", "brute_structs", "ge2", "with_deletion", "with_fusion", "with_extra",
-                  "faults", "truncated", "config_checks", "fusion_support_cases"):
+                  "faults", "truncated", "config_checks", "fusion_support_cases", "via_counters",
+                  "via_counters_all_zero"):
             acc[k] += st[k]
         for k, v in st["fired"].items():
             acc["fired"][k] = acc["fired"].get(k, 0) + v
@@ -127,7 +128,9 @@ def evidence(acc):
                        "reported_with_fusion": acc["with_fusion"], "reported_with_extra_copies": acc["with_extra"],
                        "faulted_runs": acc["faults"], "faulted_runs_truncated": acc["truncated"],
                        "configuration_clause_checks": acc["config_checks"],
-                       "cases_with_fusion_support": acc["fusion_support_cases"]},
+                       "cases_with_fusion_support": acc["fusion_support_cases"],
+                       "estimate_cn_runs_from_fusion_read_counters": acc["via_counters"],
+                       "of_which_no_read_spans_any_break_point": acc["via_counters_all_zero"]},
             "components": {"real": ["aldy.cn (model builder, enumeration, user structure, defaults)", "aldy.lpinterface", "CBC"],
                            "stub": ["solver proxy (adversarial optimal vertex, jitter, status faults)"]},
         },
@@ -432,6 +435,59 @@ def run_case(case, seg, viol, stats, sample):
                          "detail": dict(detail0, fault=[k, kind])})
         if len(f) < len(plain):
             stats["truncated"] += 1
+    if fs:
+        # the same depths through estimate_cn(), which derives the support values from the long-read counters
+        # [reads showing the fusion, reads spanning its break point] (0 when no read spans it) and the
+        # maximum copy number from the depths (one more than the largest region depth, rounded up)
+        import math
+        from aldy.common import AldyException
+
+        allzero = frng.random() < 0.35
+        counters, fs2 = {}, {}
+        for n, v in sorted(fs.items()):
+            if allzero or (v == 0.0 and frng.random() < 0.5):
+                a, b = 0, 0
+            elif v == 0.0:
+                a, b = 0, 7
+            else:
+                b = frng.choice([10, 20, 40])
+                a = max(1, round(v * b))
+            counters[n] = [a, b]
+            fs2[n] = (a / b) if b else 0.0
+
+        class _Sam:
+            _fusion_counter = counters
+
+        class _Cov:
+            sam = _Sam()
+
+            def __init__(self):
+                self.profile = profile
+
+            def region_coverage(self, gi, r):
+                return rc[r][gi] if r in rc else 2.0
+
+            def filtered(self, fn):
+                return self
+
+            def __getitem__(self, m):
+                return 10
+
+        mo = 1 + max(math.ceil(_Cov().region_coverage(gi, r)) for gi, g in enumerate(gene.regions) for r in g)
+        ev = Evaluator(gene, profile, gene.cn_configs, mo, rc, fs2)
+        detail0 = dict(detail0, route="estimate_cn", fusion_read_counters=counters, fusion_support=fs2, max_cn=mo)
+        SIM.reset({"max_solves": 4000, "max_wall": 90.0, "monitor": True})
+        try:
+            sols3 = CN.estimate_cn(gene, profile, _Cov(), "cbc")
+        except AldyException:
+            sols3 = None
+        stats["runs"] += 1
+        if sols3 is not None:
+            stats["via_counters"] = stats.get("via_counters", 0) + 1
+            if allzero:
+                stats["via_counters_all_zero"] = stats.get("via_counters_all_zero", 0) + 1
+            rep3 = per_solution(sols3, "estimate_cn")
+            containment(rep3, ev.brute(), "estimate_cn")
 
 
 def config_clauses(seg, viol, stats):
@@ -469,7 +525,7 @@ def run_segment(seg):
     viol, sample = [], []
     stats = {"cases": 0, "runs": 0, "solutions": 0, "brute_structs": 0, "fired": {}, "ge2": 0, "shapes": set(),
              "genes": {}, "with_deletion": 0, "with_fusion": 0, "with_extra": 0, "faults": 0, "truncated": 0,
-             "config_checks": 0, "fusion_support_cases": 0}
+             "config_checks": 0, "fusion_support_cases": 0, "via_counters": 0, "via_counters_all_zero": 0}
     for case in seg["cases"]:
         run_case(case, seg, viol, stats, sample)
     if seg.get("config_clauses"):
